@@ -161,12 +161,14 @@ class RecordingDB:
         self.target = None
         self.scan_run = None
         self.calls: dict[str, int] = {}
+        self.prior: dict[int, list[int]] = {}
 
     async def insert_session_transition(self, destination: int, steps: list[int]) -> None:
         self.rows.append({"s": int(destination), "st": [int(x) for x in steps]})
 
     async def get_session_transition(self, destination: int) -> list[int] | None:
-        return None
+        # rows of an EARLIER scan of the same target in the same database (case["prior_db"])
+        return self.prior.get(int(destination))
 
     def __getattr__(self, name: str) -> Any:
         if name.startswith("__"):
@@ -225,6 +227,19 @@ def run_scan(case: dict[str, Any]) -> dict[str, Any]:
         with_hooks=bool(case.get("hooks", False)), hooks=False, **kw)
     scanner = SessionsScanner(cfg)
     db = RecordingDB()
+    if case.get("prior_db"):
+        # what a previous, deeper scan of this ECU would have stored: a real path to every reachable session
+        paths: dict[int, list[int]] = {1: []}
+        frontier = [1]
+        while frontier:
+            nxt = []
+            for f in frontier:
+                for (a, b) in sorted(edges):
+                    if a == f and b not in paths:
+                        paths[b] = paths[f] + [f]
+                        nxt.append(b)
+            frontier = nxt
+        db.prior = {d: p for d, p in paths.items() if p}
     scanner.db_handler = db  # type: ignore[assignment]
     out: dict[str, Any] = {"end": "hang", "exc": ""}
 
